@@ -182,6 +182,8 @@ func memorysize(data map[string]any, key, oldkey string, example string) string 
 			i64 = i
 		case int:
 			i64 = int64(i)
+		case float64: // every number of a JSON file
+			i64 = int64(i)
 		}
 		txt, _ := config.MemorySize(i64).MarshalText()
 		return fmt.Sprintf(`%s: %s`, key, string(txt))
@@ -347,6 +349,8 @@ func secondsToDuration(data map[string]any, key, oldkey string, example string) 
 			i64 = i
 		case int:
 			i64 = int64(i)
+		case float64: // every number of a JSON file
+			i64 = int64(i)
 		}
 		dur := time.Duration(i64) * time.Second
 		return fmt.Sprintf("%s: %v", key, yamlf(dur))
@@ -445,6 +449,11 @@ func yamlf(a any) string {
 	case int:
 		return _formatIntWithUnderscores(v)
 	case float64:
+		// JSON input delivers every number as float64; write whole numbers
+		// as integers so that integer settings stay integers
+		if v > -1e15 && v < 1e15 && v == float64(int64(v)) {
+			return fmt.Sprintf("%d", int64(v))
+		}
 		return fmt.Sprintf("%f", v)
 	case time.Duration:
 		return v.String()
